@@ -96,3 +96,45 @@ def lex_time(s):
     except exceptions.MakoException:
         pass
     return time.perf_counter() - t
+
+
+def lookup_probe(uri, dirs, moddir, via, rel, notfiles=()):
+    """real TemplateLookup / Template.__init__ with the same environment stubs as the symbolic C09 run"""
+    import types
+    import os
+    from mako import lookup as LK, template as TP, runtime as RT, exceptions as EXC
+    ops = []
+
+    class P:
+        sep = "/"
+
+        @staticmethod
+        def isfile(p):
+            return p not in notfiles
+
+    class O:
+        path = P
+        sep = "/"
+
+    saved = (LK.os, TP.Template._compile_from_file, os.getcwd)
+    LK.os = O
+
+    def fake(self, path, filename):
+        ops.append(("compile", path, filename))
+        return types.SimpleNamespace(render_body=lambda *a, **k: None, _modified_time=0)
+
+    TP.Template._compile_from_file = fake
+    os.getcwd = lambda: "/cwd"
+    try:
+        lk = LK.TemplateLookup(dirs, module_directory=moddir, filesystem_checks=False)
+        try:
+            if via == "direct":
+                t = lk.get_template(uri)
+            else:
+                ctx = types.SimpleNamespace(_with_template=types.SimpleNamespace(lookup=lk, uri=rel))
+                t = RT._lookup_template(ctx, uri, rel)
+        except Exception as e:
+            return ("exc", type(e).__name__)
+        return ("ok", t.filename, ops)
+    finally:
+        LK.os, TP.Template._compile_from_file, os.getcwd = saved
